@@ -321,6 +321,7 @@ func (c *UConn) handshakeContext(ctx context.Context) (ret error) {
 	if c.isHandshakeComplete.Load() {
 		return nil
 	}
+	c.verifYield("uconn-handshake-enter")
 
 	handshakeCtx, cancel := context.WithCancel(ctx)
 	// Note: defer this before starting the "interrupter" goroutine
@@ -358,8 +359,10 @@ func (c *UConn) handshakeContext(ctx context.Context) (ret error) {
 		}()
 	}
 
+	c.verifYield("uconn-before-handshake-mutex")
 	c.handshakeMutex.Lock()
 	defer c.handshakeMutex.Unlock()
+	c.verifYield("uconn-holding-handshake-mutex")
 
 	if err := c.handshakeErr; err != nil {
 		return err
